@@ -130,7 +130,7 @@ def finalize(tier, seed, stats):
     import torchsde
     from .. import machine
     n, steps = (40, 40) if tier == "quick" else (1200, 80)
-    viol, cov = machine.run(torchsde, ID, seed, n, steps)
+    viol, cov = machine.run(torchsde, ID, seed, n, steps, shrink=(tier == "thorough"))
     if viol is not None and viol["clause"].startswith(MACHINE_CLAUSES):
         stats.violations.append({"case": viol["case"], "shrunk": True,
                                  "fail": {"clause": "state_machine:" + viol["clause"], "msg": viol["msg"], "sig": {}}})
